@@ -272,7 +272,7 @@ func (rl *Shell) viBackwardChar() {
 	}
 
 	for i := 1; i <= vii; i++ {
-		if (*rl.line)[rl.cursor.Pos()-1] == '\n' {
+		if rl.cursor.Pos() == 0 || (*rl.line)[rl.cursor.Pos()-1] == '\n' {
 			break
 		}
 
@@ -1000,7 +1000,7 @@ func (rl *Shell) viYankWholeLine() {
 	}
 
 	// If selection has a new line, remove it.
-	if (*rl.line)[epos-1] == '\n' {
+	if epos > bpos && (*rl.line)[epos-1] == '\n' {
 		epos--
 	}
 
